@@ -1549,14 +1549,10 @@ void ADFH_Move_Child(const double  pid,
   hid_t hpid;
   hid_t hid;
   hid_t hnpid;
-  ssize_t len;
-  int namelen;
 #ifndef ADFH_NO_ORDER
   int old_order, new_order;
 #endif
-  char buff[2];
   char nodename[ADF_NAME_LENGTH+1];
-  char *newpath;
   herr_t status;
   H5O_info_t stat;
 
@@ -1587,31 +1583,16 @@ void ADFH_Move_Child(const double  pid,
   /* get node name */
 
   if (get_str_att(hid, A_NAME, nodename, err)) return;
-  namelen = (int)strlen(nodename);
 
-  /* get new node path */
-
-  len = H5Iget_name(hnpid, buff, 2);
-  if (len <= 0) {
-    set_error(ADFH_ERR_IGET_NAME, err);
-    return;
-  }
-  newpath = (char *) malloc (len+namelen+2);
-  if (newpath == NULL) {
-    set_error(MEMORY_ALLOCATION_FAILED, err);
-    return;
-  }
-  H5Iget_name(hnpid, newpath, len+1);
-  newpath[len++] = '/';
-  strcpy(&newpath[len], nodename);
+  /* the destination name is relative to the new parent: no need for the
+     new parent's path, which H5Iget_name cannot always give for a group
+     that was itself moved */
 
 #ifdef ADFH_DEBUG_ON
   printf("%s move [%s]\n",ADFH_PREFIX,nodename);
-  printf("%s to   [%s]\n",ADFH_PREFIX,newpath);
 #endif
 
-  status = H5Lmove(hpid, nodename, hnpid, newpath, H5P_DEFAULT, H5P_DEFAULT);
-  free(newpath);
+  status = H5Lmove(hpid, nodename, hnpid, nodename, H5P_DEFAULT, H5P_DEFAULT);
   if (status < 0) {
     set_error(ADFH_ERR_LMOVE, err);
     return;
